@@ -785,8 +785,12 @@ package parse
 //@   measure rem(t), 5
 //@   stackbound 10000 - t.depth, 2
 //@   ensures typeis(result, *ast.SwitchNode)
+//@   ghost defaults int = 0
+//@   at call (*tree).parseCase#0 set defaults = defaults + ite(arg1.typ == itemDefault, 1, 0)
+//@   at call (*tree).parseCase#0 assert[at-most-one-default-per-switch-or-plural;C02,C10,C14] defaults <= 1
 //@   loop 0
 //@     invariant stepOK(t) && t.aliases != nil && fresh(cases)
+//@     invariant[defaults-seen-so-far;C02,C10,C14] 0 <= defaults && defaults <= 1 && (seenDefault == (defaults == 1))
 //@     decreases ntoks(t.lex) - cursor(t)
 
 //@ func (*tree).parseCase
